@@ -46,7 +46,7 @@ class Done(Exception):
     pass
 
 
-LAYOUT_REPOS = ['/ws/r1', '/ws/r2', '/ws/r1/nested']
+LAYOUT_REPOS = ['/ws/r1', '/ws/r2', '/ws/r1/nested', '/ws/r1x']      # r1x: a sibling whose name extends r1's
 
 
 def repo_of(path):
@@ -94,7 +94,7 @@ def repo_dir(M, r):
 
 
 LAYOUT_FS = {'/ws/r1/.git': 'DIR', '/ws/r1/a': 'x', '/ws/r1/sub/b': 'x', '/ws/r2/.git': 'DIR', '/ws/r2/c': 'x', '/ws/loose': 'x',
-             '/else/x': 'x', '/ws/r1/nested/.git': 'DIR', '/ws/r1/nested/n': 'x'}
+             '/else/x': 'x', '/ws/r1/nested/.git': 'DIR', '/ws/r1/nested/n': 'x', '/ws/r1x/.git': 'DIR', '/ws/r1x/a': 'x'}
 
 
 def install(M):
@@ -204,7 +204,7 @@ def install(M):
     M.env['observability::spawn_background_flush'] = noop
 
 
-FILES = ['/lnk/r2/c', '/ws/r1/a', '/ws/r1/sub/b', '/ws/r2/c', '/ws/loose', '/else/x', 'a', '../r2/c', '/ws/r1/nested/n',
+FILES = ['/ws/r1x/a', '/lnk/r2/c', '/ws/r1/a', '/ws/r1/sub/b', '/ws/r2/c', '/ws/loose', '/else/x', 'a', '../r2/c', '/ws/r1/nested/n',
          '/ws/r1/new', '/ws/r2/newdir/y', '/ws/r1/../r2/c', '/ws/r1/sub/../../r2/new']
 
 
@@ -218,6 +218,10 @@ def plan(tier, seed):
             tasks.append(('dispatch', {'preset': 'claude', 'outcome': 'result', 'kind': kind, 'wd': wd, 'cwd': cwd, 'nfiles': nf}))
     for p in PRESETS[1:]:
         tasks.append(('dispatch', {'preset': p, 'outcome': 'result', 'kind': 'AiAgent', 'wd': '/ws', 'cwd': '/ws', 'nfiles': 2}))
+        # the payload names the workspace; the process was started somewhere else
+        tasks.append(('dispatch', {'preset': p, 'outcome': 'result', 'kind': 'AiAgent', 'wd': '/ws', 'cwd': '/else', 'nfiles': 1}))
+    for t in range(len(HP_TEMPLATES)):
+        tasks.append(('hook_path', {'t': t}))
     for n in (1, 2):
         tasks.append(('tracked', {'ndirty': n}))
     for kind in ('Human', 'AiAgent'):
@@ -298,8 +302,9 @@ def ob_dispatch(h, shape):
                 R = home(a)
                 if R is None or R in excluded:
                     continue
-                if primary and (R == primary or R.startswith(primary + '/')):
-                    continue     # inside the working repository's tree: left to that checkpoint's own filter (K2)
+                if primary and R == primary:
+                    continue     # a file of the working repository itself: left to that checkpoint's own filter (K2)
+                # (a repository nested inside the working repository is a repository of its own: its files go there)
                 got = any(r['repo'] == R and any(lexical(x if x.startswith('/') else base + '/' + x) == a for x in ((r['files'] if r['files'] is not None else r['will']) or [])) for r in runs)
                 h.require(got, 'K1-file-reaches-its-repository', 'file %s lies in repository %s but no checkpoint of that repository received it; runs=%r exited=%r ev=%r' % (f, R, runs, exited, [e for e in P.events if e[0] != 'run']))
                 h.cover('K1-file-routed')
@@ -436,7 +441,36 @@ def ob_tracked(h, shape):
     h.sample = h.witness()
 
 
-OBLIGATIONS = {'dispatch': ob_dispatch, 'filter': ob_filter, 'tracked': ob_tracked}
+HP_TEMPLATES = [
+    # raw path templates: None = symbolic ASCII byte, concrete bytes otherwise (multi-byte characters first and last)
+    [None], [None, None], [None, None, None], [0xE6, 0x97, 0xA5], [0xE6, 0x97, 0xA5, None], [None, 0xC3, 0xA9], [0xC3, 0xA9],
+    list(b'file://') + [None, None], list(b'file://localhost') + [None], [32, None, 32], [None, 58, None], [92, 92, None],
+]
+
+
+def ob_hook_path(h, shape):
+    """K3: how a path named by a VS Code hook payload is made absolute (GithubCopilotPreset::normalize_hook_path): never a
+    panic, whatever short text the payload carries (one byte, a multi-byte first character, only blanks, a URI scheme);
+    a relative path is joined to the payload's directory, an absolute one is kept"""
+    P = h.P
+    tpl = HP_TEMPLATES[shape['t']]
+    raw = [h.byte_in('r%d' % i, [97, 47, 46, 58, 92, 32, 0x7e]) if x is None else x for i, x in enumerate(tpl)]
+    h.inputs_struct = {'raw': ByteStr(raw), 'cwd': '/ws/r1'}
+    try:
+        r = P.call_named('commands::checkpoint_agent::agent_presets::GithubCopilotPreset::normalize_hook_path', [mk_str(list(raw)), pystr('/ws/r1')])
+    except Panic as e:
+        h.panic('K3-hook-path-no-panic', e.msg)
+        return
+    if r.var == 'None':
+        blank = all_of([any_of([byte_eq(b, 32), byte_eq(b, 9), byte_eq(b, 10)]) if not isinstance(b, int) else (b in (32, 9, 10)) for b in raw])
+        h.require(blank, 'K3-hook-path-dropped-only-when-blank', 'a non-blank path was dropped')
+    else:
+        out = list(as_bytes(r.f[0]))
+        h.require(len(out) > 0, 'K3-hook-path-non-empty', 'an empty path was produced')
+    h.sample = h.witness()
+
+
+OBLIGATIONS = {'hook_path': ob_hook_path, 'dispatch': ob_dispatch, 'filter': ob_filter, 'tracked': ob_tracked}
 MUST_COVER = ['K1-run-called', 'K1-exit0', 'K1-file-routed', 'K2-some-kept', 'K2-some-dropped', 'K2-all-outside', 'K2-dirty-outside-dropped']
 
 
@@ -450,12 +484,12 @@ def _scratch():
     root = tempfile.mkdtemp(prefix='vc20')
     env = dict(os.environ, HOME=root, GIT_CONFIG_NOSYSTEM='1', GIT_AUTHOR_NAME='v', GIT_AUTHOR_EMAIL='v@v', GIT_COMMITTER_NAME='v', GIT_COMMITTER_EMAIL='v@v')
     env.pop('GIT_DIR', None)
-    for d in ('ws/r1/sub', 'ws/r2', 'ws/r1/nested', 'else'):
+    for d in ('ws/r1/sub', 'ws/r2', 'ws/r1/nested', 'ws/r1x', 'else'):
         os.makedirs(os.path.join(root, d))
-    for f in ('ws/r1/a', 'ws/r1/sub/b', 'ws/r2/c', 'ws/loose', 'else/x', 'ws/r1/nested/n'):
+    for f in ('ws/r1/a', 'ws/r1/sub/b', 'ws/r2/c', 'ws/loose', 'else/x', 'ws/r1/nested/n', 'ws/r1x/a'):
         open(os.path.join(root, f), 'w').write('one\n')
     os.symlink(os.path.join(root, 'ws'), os.path.join(root, 'lnk'))
-    for r in ('ws/r1/nested', 'ws/r1', 'ws/r2'):
+    for r in ('ws/r1/nested', 'ws/r1', 'ws/r2', 'ws/r1x'):
         d = os.path.join(root, r)
         subprocess.run(['git', 'init', '-q', '.'], cwd=d, env=env, check=True)
         subprocess.run(['git', 'config', 'user.name', 'v'], cwd=d, env=env, check=True)
@@ -463,7 +497,7 @@ def _scratch():
         subprocess.run(['git', 'add', '-A'], cwd=d, env=env, stdout=subprocess.PIPE, stderr=subprocess.PIPE)
         subprocess.run(['git', 'commit', '-q', '-m', 'base'], cwd=d, env=env, check=True)
     # the agent's edit
-    for f in ('ws/r1/a', 'ws/r1/sub/b', 'ws/r2/c', 'ws/loose', 'else/x', 'ws/r1/nested/n'):
+    for f in ('ws/r1/a', 'ws/r1/sub/b', 'ws/r2/c', 'ws/loose', 'else/x', 'ws/r1/nested/n', 'ws/r1x/a'):
         open(os.path.join(root, f), 'a').write('two by the agent\n')
     return root, env
 
@@ -474,7 +508,7 @@ def _recorded(root):
     import json as js
     import os
     out = {}
-    for r in ('/ws/r1', '/ws/r2', '/ws/r1/nested'):
+    for r in ('/ws/r1', '/ws/r2', '/ws/r1/nested', '/ws/r1x'):
         names = set()
         readable = True
         for f in glob.glob(os.path.join(root + r, '.git', 'ai', 'working_logs', '*', 'checkpoints.jsonl')):
@@ -530,7 +564,7 @@ def _native_case(native, kind, cwd, wd, files, dirty=None, corrupt=()):
         subprocess.call(['rm', '-rf', root])
 
 
-EXISTING = {'/ws/r1/a', '/ws/r1/sub/b', '/ws/r2/c', '/ws/loose', '/else/x', '/ws/r1/nested/n'}
+EXISTING = {'/ws/r1/a', '/ws/r1/sub/b', '/ws/r2/c', '/ws/loose', '/else/x', '/ws/r1/nested/n', '/ws/r1x/a'}
 
 
 def _judge(kind, cwd, wd, files, r):
@@ -581,6 +615,15 @@ def _judge(kind, cwd, wd, files, r):
 def replay(v, native):
     inp = v['inputs']
     ob = v['obligation']
+    if 'raw' in inp:
+        r = native('c20_hook_path', {'raw': inp['raw'], 'cwd': inp['cwd']})
+        if 'panic' in r:
+            return {'reproduced': v['kind'] == 'panic', 'native': r}
+        if v['kind'] == 'panic':
+            return {'reproduced': False, 'native': r}
+        raw = bytes_of_json(inp['raw'])
+        bad = {'K3-hook-path-dropped-only-when-blank': r.get('path') is None and raw.strip() != b'', 'K3-hook-path-non-empty': r.get('path') == ''}
+        return {'reproduced': bool(bad.get(ob)), 'native': r}
     if 'dirty' in inp:
         r = _native_case(native, 'AiAgent', '/ws/r1', '/ws/r1', inp['edited'], inp['dirty'])
         if v['kind'] == 'panic':
